@@ -71,7 +71,7 @@ PROPS = {
     technique='bounded exhaustive enumeration of all API histories over BUILDOP / RELEASE / CLEAR / STALES / CLEARALL / WARM(600) / CHURN symbols up to a depth bound, each executed under every compute-table configuration (4 styles x 3 stale policies x sizes, optional compression) on the real library, with reference tables, a cross-configuration differential and a cache-count recount after every primitive call',
     rule='every history up to the depth bound x every compute-table configuration; after every symbol: A11 + A12 (cache count of every handle equals the number of entries naming it; no entry names a free handle) and register read-back; at the end full audit and identical observables (tables, node/edge counts, DAG signatures) across all configurations. non-trivial = length >= 2',
     bounds={'quick': '3 scenarios x 2 deletion policies: depth 2 under 12 CT configurations (4 styles x 3 stale policies, size 1024) + depth 3 under the default configuration; alphabet ~90 symbols',
-            'thorough': 'depth 3 under 72 configurations (4 styles x 3 stale x 3 sizes x compression on/off)'},
+            'thorough': 'depth 2 under 72 configurations (4 styles x 3 stale x 3 sizes x compression on/off) + depth 3 under the 12 configurations of the quick tier (depth 3 x 72 was measured at ~110 CPU-hours and is not offered); the harness asserts after every initialisation that the requested configuration is the one in force'},
     text='Exhaustive over histories to the depth bound and the CT configuration menu; results are compared with CT-independent reference tables and across configurations, and cache counts are recounted after every primitive call.',
     note='bounded: depth 2-3 with WARM(600) macro forcing > 512 live entries (table resize/GC); maxSize values 1024, 4096, 2^24',
     design_ref='DESIGN.md 4/C07',
@@ -80,8 +80,8 @@ PROPS = {
     level=MC, engines=[('rel', 'eng_hist')],
     technique='bounded exhaustive enumeration of all API histories up to a depth bound, each executed under all 36 storage x memory-manager x deletion policy combinations on the real library and compared (differential) on register tables, node/edge counts and handle-abstracted DAG signatures, plus the full audit in each configuration',
     rule='every history over {BUILD, OP, copy-through-forest, RELEASE, CLEAR, CHURNUP(600), CHURNDOWN, CHURNUP(20)} up to the depth bound x 36 policy combinations; non-trivial = length >= 2',
-    bounds={'quick': '5 kinds (MT int set Q, MT bool relation I, EV+ set F, EV* relation F, MT bool set F) on S7/S3, depth 2, 36 policies',
-            'thorough': 'depth 3, catalogue 8'},
+    bounds={'quick': '5 kinds (MT int set Q, MT bool relation I, EV+ set F, EV* relation F, MT bool set F) on S7/S3, depth 2, 36 policies; plus depth 3 over a four-function catalogue for the EV* relation kind',
+            'thorough': 'depth 3, catalogue 8 (6 kind/shape pairs)'},
     text='Exhaustive over histories to the depth bound x all 36 policy combinations; observables must be identical across policies and equal to the reference tables; every configuration passes the audit.',
     note='bounded: depth 2/3; active-node totals are not compared across deletion policies (they legitimately differ)',
     design_ref='DESIGN.md 4/C12',
@@ -118,8 +118,8 @@ PROPS = {
     level=EX, engines=[('rel', 'eng_c05')],
     technique='bounded exhaustive enumeration of all operand pairs x 14 binary operations x all (a,b,c) reduction-rule triples (same-object and all-distinct forest assignments) on the real library, compared with exact scalar tables; every pair with an invalid scalar case must raise the documented error; unary maps and range queries over whole universes',
     rule='every ordered pair of functions of the universe |V|^points (or U x B and B x U beyond the cap) x {PLUS, MINUS, MULTIPLY, DIVIDE, MODULO, MAXIMUM, MINIMUM, DIST_MIN, EQUAL, NOT_EQUAL, LESS_THAN, LESS_THAN_EQUAL, GREATER_THAN, GREATER_THAN_EQUAL} x rule triples x comparison result in boolean and operand-typed forests; error part: pairs whose divisor has a zero / whose subtrahend has +infinity must raise DIVIDE_BY_ZERO / SUBTRACT_INFINITY; unary: DIST_INC, three user-defined maps, MAX_RANGE/MIN_RANGE over every function x rule pairs. non-trivial = non-constant result; distinct by (op, forests, a, b)',
-    bounds={'quick': 'MT int, MT real, EV+ sets S1-S2 all pairs (16, 64 functions), S3 via U x B0 and B0 x U, S4 via B0 x B0; MT int/real, EV+, EV* relations S1 via B0 x B0',
-            'thorough': 'sets S3 all pairs (256 functions), S4 via B0, S6 via B0 x B0; relations S1 all pairs (256 functions), S2 via B0 x B0; second value alphabets'},
+    bounds={'quick': 'MT int, MT real, EV+ sets S1-S2 all pairs (16, 64 functions), S3 via U x B0 and B0 x U, S4 via B0 x B0; MT int/real, EV+, EV* relations S1 via B0 x B0, identity-reduced relations S3 via B0 x B0 (every 8th pair) and S6 via event functions x unions of two events (every 4th pair); in-place (aliasing) variants of every case',
+            'thorough': 'sets S3 all pairs (256 functions), S4 via B0, S6 via B0 x B0; relations S1 all pairs (256 functions), S2 via B0 x B0, S3 via B0 x B0 (every 2nd pair), S6 (two-value alphabets) via event functions x unions of two events and B0 x B0; second value alphabets; every case also with the result edge aliasing operand a, operand b, and both operands one edge object'},
     text='Exhaustive over the stated operand universes, operations and rule triples; exact scalar oracle; documented errors required for invalid scalar cases.',
     note='bounded: 1-3 variables of size 2-3, 4-value alphabets; EV+ multiply/divide with +infinity operands are outside the documented domain and skipped (counted); known findings KF-C05-1..5',
     design_ref='DESIGN.md 4/C05',
@@ -128,8 +128,8 @@ PROPS = {
     level=EX, engines=[('rel', 'eng_rel')],
     technique='bounded exhaustive enumeration of all (initial set, transition relation) pairs over tiny domains x 6 algorithm/direction pairs x relation and set reduction rules on the real library, inside one warm instance with alternating relations, compared with an explicit BFS closure / shortest-path model',
     rule='every transition relation of the universe 2^(points^2) (or the structured family B) x every initial set (all subsets, or a fixed covering menu for larger products) x {TRAD_FS, TRAD_NOFS, SATUR} x {forward, backward} x relation rule {F,Q,I} x set rule {F,Q}; result must be the identical canonical edge of the reachable set; every third case also runs saturation in a second set forest sharing the relation forest; distance variants (EV+ 0/+inf and MT int 0/-1) against BFS distances and equal across algorithms. non-trivial = reachable set differs from the initial set',
-    bounds={'quick': 'boolean: S1 (16 relations), S2 (512) complete x all initial sets; S3 (65536) and S4 via the structured family; distances: S1, S2 complete, S3 via B0',
-            'thorough': 'S3 complete (65536 relations x 16 initial sets), S4 via B, S6 via B0'},
+    bounds={'quick': 'boolean: S1 (16 relations), S2 (512) complete x all initial sets; S3 (65536) and S4 via the structured family; distances: S1, S2 complete, S3 via B0; S6 (three variables): identity-reduced relations that are unions of two events x all 256 initial sets; sizes (3,4): background counter + every set of <= 4 guarded events from a catalogue of 144, EV+ distance and boolean saturation, both directions',
+            'thorough': 'S3 complete (65536 relations x 16 initial sets), S4 via B, S6 via B0 and via unions of two events x all 256 initial sets (all relation rules), distances on S6; guarded events on sizes (3,4) for all relation rules'},
     text='Exhaustive over the stated relation universes and initial sets; all algorithms must return the identical canonical edge of the explicit closure.',
     note='bounded: 1-3 variables of size 2-3; MT int saturation known finding KF-C08-1; TRAD_FS is not offered for distance forests (listed as declined)',
     design_ref='DESIGN.md 4/C08',
@@ -194,9 +194,9 @@ PROPS = {
  ),
  'C17': dict(
     level=MC, engines=[('rel', 'eng_c17'), ('asan', 'eng_c17')],
-    technique='bounded exhaustive enumeration of all lifecycle histories (INIT, CLEANUP, NEWDOM, NEWFOREST, BUILD, cross-forest operation, CLEAR, ITER, DESTROYFOREST, DESTROYDOM, USEDETACHED in 6 ways) up to a depth bound with canonicalised creation slots, executed on the real library (release and ASan builds), model-checked after every step',
+    technique='bounded exhaustive enumeration of all lifecycle histories (INIT, CLEANUP, NEWDOM, NEWFOREST, BUILD, cross-forest operation, CLEAR, ITER, DESTROYFOREST, DESTROYDOM, USEDETACHED in 6 ways) up to a depth bound with canonicalised creation slots, executed on the real library (release and ASan builds), model-checked after every step (edges, forests, ids, and the operation registry: no registered operation mentions a destroyed forest)',
     rule='every enabled history of the stated length (<= 2 domains, 3 forests, 3 registers alive); after every step: edges of destroyed forests report no forest, surviving registers read back, surviving forests pass the full audit, forests of other domains keep their fingerprint across a destruction, forest ids strictly increase within one initialisation, using a detached edge raises a documented error (copying it is legal and yields an inert edge; iterating it yields nothing); held objects are destroyed before or after cleanup alternately. non-trivial = every history',
-    bounds={'quick': 'depth 7 (release), depth 6 (ASan)', 'thorough': 'depth 9 (release), depth 7 (ASan)'},
+    bounds={'quick': 'depth 7 (release), depth 6 (ASan); depth 5 (ASan 4) continuations of a populated state (two forests of one domain, an edge in each)', 'thorough': 'depth 9 (release), depth 7 (ASan); depth 6 (ASan 5) from the populated state'},
     text='Exhaustive over lifecycle histories to the depth bound.',
     note='bounded: depth 7/9; 2 shapes, 3 forest kinds',
     design_ref='DESIGN.md 4/C17',
@@ -205,7 +205,7 @@ PROPS = {
     level=EX, engines=[('rel', 'eng_c20')],
     technique='bounded exhaustive enumeration of event lists x initial sets x {by events, by levels x 5 splitting options} through pregen_relation + SATURATION_FORWARD on the real library, compared with the explicit closure under the union of the events and with REACHABLE_TRAD_NOFS on the union relation',
     rule='event catalogue: every local relation on one variable (all 15 non-empty ones for size 2; the 1-point family + 4 more for size 3) x identity elsewhere, and single transitions on every pair of variables (thinned 1/3) x identity elsewhere; every event list of length 1 and 2 (ordered, with repetition) [3 in thorough on S3]; every initial set (all subsets <= 16 states, a fixed menu of 11 beyond); identity-reduced relation forest, set forests F and Q; each (list, mode) on a fresh library instance. non-trivial = reachable set differs from the initial set',
-    bounds={'quick': 'S3, S4 lists of length <= 2; S6 length 1', 'thorough': 'S6 length 2, S3 length 3, S7 length 1'},
+    bounds={'quick': 'S3, S4 lists of length <= 2; S6 length 1; S6 alphabet t2 (all single transitions on <= 2 variables, ordered pairs) x every cube as initial set; S6 alphabet pid (sets of <= 4 guarded self-loop events); S6 alphabet u2 (events of two transitions, triples, thinned)', 'thorough': 'S6 length 2, S3 length 3, S7 length 1; t2 x all 256 initial sets, t2 on S7 x cubes; pid on S7 (sets of <= 3); u2 unthinned partition'},
     text='Exhaustive over the stated event lists, initial sets and partitioning modes.',
     note='bounded: 2-3 variables; relation forest identity-reduced only (the semantics pregen_relation assumes)',
     design_ref='DESIGN.md 4/C20',
